@@ -687,14 +687,19 @@ class Prop:
         text=("Machine-checked theorems (Coq 8.16, no axioms) about an executable model of nutree/tree_generator.py in which the global "
               "random module is an explicit, arbitrary stream of draws: for every structure definition with an acyclic relation graph and "
               "EVERY stream the generated tree conforms to the definition (node types per relation, child counts fixed or within the "
-              "randomizer's range, attributes = merge of '*', type and relation spec in dict order with {idx}/{hier_idx} expanded to the "
-              "1-based per-relation index / dotted index path, random values within range, probability-skipped attributes absent, kind = "
-              "type name, class = requested class, fuel sufficiency); tied to /repo on every run by a correspondence check on generated "
-              "definitions x streams x both tree classes with random/fabulist replaced by readers of the same stream, and an independent "
-              "Python conformance oracle."),
-        note=("Trusted: Coq kernel + vm_compute; hand-written model theories/Forest/RandomTree.v (tied by the correspondence only); the "
-              "harness's stand-ins for random.random/randrange/uniform/sample and fabulist; D39 (cyclic definitions do not terminate) is "
-              "a recorded domain restriction."),
+              "randomizer's range, data class from :factory, attributes = merge of '*', type and relation spec in dict order with "
+              "{idx}/{hier_idx} expanded to the 1-based per-relation index / dotted index path, then :callback, random values within range, "
+              "probability-skipped attributes absent, probability 0.0 never generates, kind = type name, class = requested class, fuel "
+              "sufficiency) and conversely every conforming tree is produced by some stream (the specification is exact); tied to /repo on "
+              "every run by facts lifted from the source text, a correspondence check on generated definitions x streams x both tree "
+              "classes with random/fabulist replaced by readers of the same stream (or the real seeded random/fabulist, recorded), and an "
+              "independent Python conformance oracle."),
+        note=("Trusted: Coq kernel + vm_compute; hand-written model theories/Forest/RandomTree.v (tied by the correspondence and the generated "
+              "source facts only); the harness's stand-ins for random.random/randrange/uniform/sample and fabulist; floats are fed dyadic "
+              "values so that uniform() is exact.  D39 (cyclic definitions do not terminate) is a recorded domain restriction "
+              "(hypothesis rank_ok; C20_terminates_for_every_definition_refuted).  D60 (probability 0.0 could generate) is repaired by "
+              "fixes/D60.diff.  The oracle accepts the closed declared range [min,max]; the theorems and the correspondence pin the "
+              "half-open range the code draws from."),
         technique="Coq proof about an executable Gallina model + differential correspondence check (vm_compute) + Python oracle",
         design_ref="DESIGN.md section 6 (C20), section 7 (D39)",
     )
@@ -704,7 +709,7 @@ class Prop:
         yield from CORPUS
         for _ in range(60 if tier == "quick" else 400):
             yield dict(ctor=gen_ctor(rng))
-        for _ in range(40 if tier == "quick" else 300):
+        for _ in range(40 if tier == "quick" else 200):
             d = gen_def(rng)
             if '"RangeF"' in _json.dumps(d) or fab_missing():
                 continue
@@ -713,7 +718,7 @@ class Prop:
             d = gen_def(rng)
             d["relations"] = [r for r in d["relations"] if r[0] != "__root__"]
             yield dict(d, typed=rng.random() < 0.5, stream=gen_stream(rng))
-        ndefs = 150 if tier == "quick" else 1000
+        ndefs = 150 if tier == "quick" else 800
         for _ in range(ndefs):
             d = gen_def(rng)
             for _ in range(2 if tier == "quick" else 3):
